@@ -1118,14 +1118,16 @@ where
                 if let Some(text) = annotation.text_simple() {
                     match textmode {
                         TextMode::Exact => text == *reftext,
-                        TextMode::CaseInsensitive => text.to_lowercase() == *reftext,
+                        //(a borrowed reference text is not lowercased yet)
+                        TextMode::CaseInsensitive => text.to_lowercase() == reftext.to_lowercase(),
                     }
                 } else {
-                    let mut text = annotation.text_join(delimiter);
+                    let text = annotation.text_join(delimiter);
                     if *textmode == TextMode::CaseInsensitive {
-                        text = text.to_lowercase();
+                        text.to_lowercase() == reftext.to_lowercase()
+                    } else {
+                        text == *reftext
                     }
-                    text == *reftext
                 }
             }
             Filter::Regex(regex, delimiter) => {
